@@ -228,6 +228,58 @@ def check_fn(rep, S, m, t, oid):
     rep.ob(oid + '#nocancel', 'R05.nocancel', HOLDS if cancelled == 0 else VIOLATED,
            '' if cancelled == 0 else '%d monomial(s) cancel during expansion: the implementation is not a plain signed sum of products' % cancelled, where, nontrivial=False)
 
+def check_mixed(rep, ws):
+    """vector of one element type times a matrix of another (integer vector, float matrix): the sums of products are formed in
+    the common type from the converted vector components and rounded to the vector's type once, at the end"""
+    tu = TU('c05_mixed')
+    V, M4, M3 = 'Vec3<int>', 'Matrix44<float>', 'Matrix33<float>'
+    tu.add('w_vm44', '%s& o, const %s& v, const %s& m' % (V, V, M4), 'o = v * m;', d=4, homog=True)
+    tu.add('w_vmassign44', '%s& v, const %s& m' % (V, M4), 'v *= m;', d=4, homog=True, inplace=True)
+    tu.add('w_multVec44', '%s& o, const %s& v, const %s& m' % (V, V, M4), 'm.multVecMatrix(v, o);', d=4, homog=True)
+    tu.add('w_multDir44', '%s& o, const %s& v, const %s& m' % (V, V, M4), 'm.multDirMatrix(v, o);', d=4, homog=False)
+    tu.add('w_vm33', '%s& o, const %s& v, const %s& m' % (V, V, M3), 'o = v * m;', d=3, homog=False)
+    tu.add('w_vmassign33', '%s& v, const %s& m' % (V, M3), 'v *= m;', d=3, homog=False, inplace=True)
+    try:
+        mod = ws.module(tu.name, tu.source(), opaque=())
+    except build.BuildError as e:
+        rep.ob('mixed-type products', 'R05.def', UNDECIDED, str(e)[:300]); return
+    I = vg.Interp(mod)
+    for name, m in tu.meta.items():
+        oid = '%s<int x float>' % name[2:]
+        try:
+            S = I.run(name)
+            where = fn_where(S.fn)
+            d = m['d']; vb, mb = ('a0', 'a1') if m.get('inplace') else ('a1', 'a2')
+            vin = [T.inp(vb, 4 * i, 4, 'i32') for i in range(3)]
+            bad = None
+            for j in range(3):
+                o = S.out('a0', 4 * j, 4, 'i32')
+                roots = [o]
+                if o.op in ('sdiv',): roots = list(o.args)
+                for rnode in roots:
+                    if rnode.op != 'fptosi': bad = 'component %d is %s: expected one rounding to the vector type at the end' % (j, T.show(rnode, 2)[:80]); break
+                    seen = set(); st = [rnode.args[0]]
+                    while st and not bad:
+                        x = st.pop()
+                        if x.id in seen: continue
+                        seen.add(x.id); st.extend(x.args)
+                        if x.op in ('fptosi', 'fptoui'): bad = 'component %d: a value is rounded to the integer type inside the sum of products (%s)' % (j, T.show(x, 2)[:80])
+                        if x.op == 'in' and x.attr[0] == vb and x.ty == 'i32' and False: pass
+                    if bad: break
+                    ctx = P.Ctx()
+                    got = ctx.rat(rnode.args[0])
+                    col = j if rnode is roots[0] else 3
+                    if len(roots) == 2 and rnode is roots[1]: col = 3
+                    want = {}
+                    for k in range(3): want = P.padd(want, P.pmul(P.patom(ctx.key(vin[k])), P.patom(ctx.key(T.inp(mb, 4 * (k * d + col), 4, 'float')))))
+                    if m['homog']: want = P.padd(want, P.patom(ctx.key(T.inp(mb, 4 * (3 * d + col), 4, 'float'))))
+                    if not ctx.requal(got, (want, P.pconst(1))): bad = 'component %d: the rounded value is %s, not the definition' % (j, P.show_rat(got, ctx)[:100])
+                if bad: break
+                if m['homog'] and len(roots) != 2: bad = 'component %d is not x / w' % j; break
+            rep.ob(oid, 'R05.def', VIOLATED if bad else HOLDS, bad or 'sums of products of the converted components, rounded once', where)
+        except (vg.Unsupported, P.NotPoly) as e:
+            rep.ob(oid, 'R05.def', UNDECIDED, repr(e)[:300])
+
 def main(rep, ws, tier):
     types = 'f' if tier == 'quick' else 'fd'
     tus = [gen_tu(t) for t in types]
@@ -242,6 +294,7 @@ def main(rep, ws, tier):
                 rep.ob(oid, 'R05.def', UNDECIDED, R.err.get(name, 'not analysed')); continue
             check_fn(rep, S, m, t, oid)
             fams.setdefault((m['fam'], t), []).append(oid)
+    check_mixed(rep, ws)
     # R05.spell: spellings of one family all proved equal to the same definition
     status = {o['id']: o['status'] for o in rep.obs if o['rule'] == 'R05.def'}
     for (fam, t), oids in sorted(fams.items()):
